@@ -21,5 +21,8 @@ GNext ==
 GSpec == GInit /\ [][GNext]_<<vars, hist>>
 GView == <<vars>>
 Over == (exited' /\ ~exited) \/ (entered' = "raised" /\ entered = "no")
-Emit == Over => PrintT(<<"PATH", ToJson([estab |-> estab, h |-> hist', req |-> req', own |-> CountOwn, srv |-> srvSent])>>)
+\* where the request's terminal message comes from at the end of the schedule ("none": no terminal yet)
+OwnSrc == LET idx == {i \in DOMAIN readStream : readStream[i].id = "own"} IN
+          IF idx = {} THEN "none" ELSE readStream[CHOOSE i \in idx : TRUE].src
+Emit == Over => PrintT(<<"PATH", ToJson([estab |-> estab, h |-> hist', req |-> req', own |-> CountOwn, src |-> OwnSrc, srv |-> srvSent])>>)
 ====
